@@ -15,7 +15,7 @@
 //! five concrete guard types are named through the `Lockable` trait's associated
 //! types and `GuardLike` is implemented for each of them with a macro.
 
-use crate::sched::{self, Cmd, Report, UserPanic};
+use crate::sched::{self, Cmd, Event, Report, UserPanic};
 use crate::types::*;
 use futures::stream::{Stream, StreamExt};
 use lockable::verif_hooks::Snapshot;
@@ -230,6 +230,7 @@ fn finish_callback(res: CbRes, held: Vec<BoxGuard>) -> Result<(), CbError> {
 /// The synchronous eviction callback (SyncLimit): moves the offered guards into the table,
 /// tells the scheduler, and blocks until `cbret`.
 pub fn sync_callback(gs: Vec<BoxGuard>) -> Result<(), CbError> {
+    note_callback_entry();
     let cx = sched::current().expect("harness bug: eviction callback outside an agent");
     let offered: Vec<Gkv> = gs.into_iter().map(|g| cx.run.adopt(g)).collect();
     let (res, hold) = match cx.report_and_wait(Report::InCallback(offered.clone())) {
@@ -249,8 +250,20 @@ pub struct CbFuture {
     offered: Vec<Gkv>,
 }
 
+/// Called at the very beginning of every eviction callback (for the async one: in the synchronous
+/// part of the `FnMut`, before the future exists): user code must never run while the library
+/// holds its global lock (C08, C15).
+fn note_callback_entry() {
+    if lockable::verif_hooks::glock_depth() != 0 {
+        if let Some(cx) = sched::current() {
+            cx.push_event(Event::BeforeCallback(true));
+        }
+    }
+}
+
 impl CbFuture {
     pub fn new(gs: Vec<BoxGuard>) -> CbFuture {
+        note_callback_entry();
         CbFuture { gs: Some(gs), offered: Vec::new() }
     }
 }
